@@ -102,9 +102,19 @@ def judge(names, lens, res, pcms, prefix):
     return True, kl, None
 
 
+def big_names(n, i, j, rev=False):
+    """n siblings, all plain fillers except an L/R pair stored at positions i and j"""
+    names = ["F%03d" % k for k in range(n)]
+    names[i], names[j] = ("PAD R", "PAD L") if rev else ("PAD L", "PAD R")
+    return names
+
+
 def run_case(case):
-    names = case["names"]
+    names = case["names"] if "big" not in case else big_names(*case["big"])
     lens = {"eq": LEN_EQ, "uneq": LEN_UNEQ, "one": LEN_ONE, "block1": LEN_BLOCK1}[case["lens"]]
+    if "big" in case:
+        lens = [10 + (k % 3) for k in range(len(names))]
+        lens[case["big"][1]] = lens[case["big"][2]] = 12
     if case["fmt"] == "akai":
         img, pcms, prefix = akai_image(names, lens, case.get("rates", "same"))
     else:
@@ -122,7 +132,8 @@ class Check(CheckBase):
             "volume, 14 names, k<=3 (quick) / k<=4 (thorough), plus all 4-tuples over the reduced 6-name alphabet; Roland "
             "performance, 9 names, k<=2 (quick) / k<=3 (thorough); equal lengths (10 frames), and unequal lengths, differing sample "
             "rates, single-frame samples and samples of 2049 frames (one more than the transcoder block) for k<=2 (quick) / "
-            "all (thorough). Oracle: every sample's position-coded PCM in exactly one channel of exactly one file; channel sum = "
+            "all (thorough); large directories: 201 AKAI siblings (70 Roland) with an L/R pair at every pair of adjacent positions "
+            "and at far-apart positions. Oracle: every sample's position-coded PCM in exactly one channel of exactly one file; channel sum = "
             "sample count; unambiguous P+'L'/P+'R' pairs (P ending in blank/hyphen, exactly one of each) in one 2-channel file, "
             "L in channel 0, all frames when equal length, named after the stem when the stem is safe and unclaimed; others "
             "mono. non-trivial = tuple containing a name of the L/R form")
@@ -153,11 +164,21 @@ class Check(CheckBase):
                     cases.append({"fmt": "roland", "names": list(t), "lens": "block1"})
         ak = [c for c in cases if c["fmt"] == "akai"]
         ro = [c for c in cases if c["fmt"] == "roland"]
-        return self.chunk(ak, 60) + self.chunk(ro, 6)
+        # large directories: a pair at EVERY pair of adjacent positions of a 201-entry AKAI volume (Roland: 70 samples), and
+        # pairs whose halves lie far apart (directory processed in pieces, pairing windows)
+        big_a, big_r = [], []
+        for k in range(200):
+            big_a.append({"fmt": "akai", "big": [201, k, k + 1, bool(k % 2)], "lens": "eq"})
+        for i, j in ((0, 200), (0, 64), (63, 128), (1, 100), (100, 1), (199, 3), (31, 32 + 64)):
+            big_a.append({"fmt": "akai", "big": [201, i, j, False], "lens": "eq"})
+        for k in range(0, 69, 1 if not self.quick else 4):
+            big_r.append({"fmt": "roland", "big": [70, k, k + 1, bool(k % 2)], "lens": "eq"})
+        big_r.append({"fmt": "roland", "big": [70, 0, 69, False], "lens": "eq"})
+        return self.chunk(ak, 60) + self.chunk(ro, 6) + self.chunk(big_a, 6) + self.chunk(big_r, 2)
 
     def run_shard(self, shard, rep: Report):
         cases = [shard["replay_case"]] if "replay_case" in shard else shard["cases"]
         for case in cases:
             ok, klass, detail = run_case(case)
-            nt = any(N.lr_prefix(n.rstrip(" ")) for n in case["names"])
+            nt = "big" in case or any(N.lr_prefix(n.rstrip(" ")) for n in case["names"])
             rep.case(case, ok=ok, klass=klass, nontrivial=nt, detail=detail, sig=f"{case['fmt']}:{klass}")
